@@ -114,6 +114,12 @@ CHECKS["C05"] = (True, MC, "symbolic execution of the real VM on every accepted 
     "Trusts z3 and the proxy model (every reported failure is replayed on concrete values; VM.py is scanned for exact-type tests that proxies would mask). Crashes of the front end itself are counted, not claimed.",
     "DESIGN.md 5 (C05)")
 
+CHECKS["C17"] = (True, TV, "differential translation validation: module reloaded from the file written by nslc.py (child process) and by in-process pickling vs the module compiled in memory, on the real VM with symbolic inputs (symx + z3); listing/metadata equality as a concrete gate",
+    "Each (program, optimisation level) of the family is written to a file by the real driver nslc.py in a child process and pickled in the checker's process; both files are loaded with the real "
+    "FilesystemModuleLoader (with and without the .nslir suffix). Gate: InstructionPrinter listing, function and global tables, imports and metadata of the reloaded module equal those of the module "
+    "compiled in memory. Then both modules are linked and run on the real VM on the same symbolic arguments and globals in one exploration; z3 decides per joint path that results, globals and failure kinds agree.",
+    "Trusts z3, the proxy model, pickle. The in-memory module is the reference.", "DESIGN.md 5 (C17)")
+
 NOT_YET = "check not built yet in this round (see DESIGN.md status); nothing is claimed"
 NA = {
     "C18": "quantifies over hash seeds, processes and compilation histories: none of these is a value flowing through the code, so there is no assertion over symbolic variables for a solver to decide (DESIGN.md section 6)",
